@@ -7,6 +7,7 @@ import (
 	"bytes"
 	"fmt"
 	"os"
+	"strings"
 	"testing"
 
 	"pgregory.net/rapid"
@@ -387,5 +388,59 @@ func TestC15(t *testing.T) {
 	}, func(c Case) *ev.Failure {
 		record(c, "random")
 		return runCase(c)
+	})
+}
+
+// FuzzCodec is the native coverage-guided target (thorough tier): byte 0 selects the element (18
+// types + fixed-length octet arrays), byte 1 the position, the rest is the value; the oracle is runCase.
+func FuzzCodec(f *testing.F) {
+	f.Add([]byte{0, 0})
+	f.Add([]byte{13, 1, 'a', 'b', 'c'})
+	f.Add(append([]byte{13, 2}, bytes.Repeat([]byte("x"), 255)...))
+	f.Add(append([]byte{0, 1}, bytes.Repeat([]byte{0xFF}, 254)...))
+	f.Add([]byte{8, 1, 0x80, 0, 0, 0, 0, 0, 0, 1})
+	f.Add([]byte{10, 0, 0x7F, 0xF8, 0, 0, 0, 0, 0, 1})
+	f.Add([]byte{18, 1, 5, 1, 2, 3, 4, 5})
+	f.Fuzz(func(t *testing.T, in []byte) {
+		if len(in) < 2 {
+			return
+		}
+		sel, pos, val := int(in[0])%19, int(in[1])%3, in[2:]
+		var fld ref.Field
+		var v ref.Value
+		if sel == 18 {
+			if len(val) == 0 {
+				return
+			}
+			n := 1 + int(val[0])%100
+			fld = glue.UserFixedOctets(n)
+			b := make([]byte, n)
+			copy(b, val[1:])
+			v = ref.Value{B: b}
+		} else {
+			fld = glue.UserField(ref.Type(sel))
+			switch {
+			case fld.Type == ref.TString:
+				v = ref.Value{B: []byte(strings.ToValidUTF8(string(val), "?"))}
+			case fld.Type == ref.TOctets:
+				v = ref.Value{B: append([]byte{}, val...)}
+			case fld.Type.IsBytes():
+				b := make([]byte, fld.Type.Width())
+				copy(b, val)
+				v = ref.Value{B: b}
+			default:
+				var u uint64
+				for i := 0; i < 8 && i < len(val); i++ {
+					u = u<<8 | uint64(val[i])
+				}
+				if fld.Type == ref.TBool {
+					u &= 1
+				}
+				v = ref.Value{U: u}
+			}
+		}
+		if fl := runCase(Case{F: fld, V: v, Pos: pos}); fl != nil {
+			t.Fatalf("%s", fl.Msg)
+		}
 	})
 }
